@@ -1390,7 +1390,7 @@ pub mod verif_export {
     pub fn expand_home(tokens: &mut Tokens) { super::expand_home(tokens) }
     pub fn expand_brace(tokens: &mut Tokens) { super::expand_brace(tokens) }
     pub fn expand_brace_range(tokens: &mut Tokens) { super::expand_brace_range(tokens) }
-    pub fn expand_one_env(sh: &Shell, token: &str) -> String { super::expand_one_env(sh, token) }
+    pub fn expand_envs_in_token(sh: &Shell, token: &str) -> String { super::expand_envs_in_token(sh, token) }
     pub fn env_in_token(token: &str) -> bool { super::env_in_token(token) }
     pub fn need_expand_brace(line: &str) -> bool { super::need_expand_brace(line) }
     pub fn should_do_dollar_command_extension(line: &str) -> bool { super::should_do_dollar_command_extension(line) }
